@@ -21,7 +21,7 @@ SRCI = "FteikVerif.Props.SourceInterp"
 SRCV = "FteikVerif.Props.SourceVInterp"
 
 SOLVER2 = ["Fteik.gen_tAna", "Fteik.gen_tAnad", "Fteik.gen_delta", "Fteik.gen_sweep2", "Fteik.gen_norm2d", "Fteik.gen_sweep2d"]
-SOLVER3 = ["Fteik.gen_tAna3", "Fteik.gen_tAnad3", "Fteik.gen_sweep3", "Fteik.gen_norm3d", "Fteik.gen_sweep3d"]
+SOLVER3 = ["Fteik.gen_tAna3", "Fteik.gen_tAnad3", "Fteik.gen_sweep3", "Fteik.gen_norm3d", "Fteik.gen_sweep3d", "Fteik.gen_fteik3d_sweeps"]
 STRUCT = ["Fteik.gen_sweep2_min_form", "Fteik.gen_sweep2_nonInc", "Fteik.gen_sweep3_min_form",
           "Fteik.gen_sweep3_nonInc"]
 GRADI = ["Fteik.gen_sweep2_grad_indep", "Fteik.gen_sweep2_nograd_sgn", "Fteik.gen_sweep3_grad_indep",
